@@ -1,0 +1,17 @@
+//go:build verif
+
+package spao
+
+import "github.com/scionproto/scion/pkg/slayers"
+
+// VerifSerializeAuthenticatedData is serializeAuthenticatedData (build tag `verif` only): the
+// /verif harness compares the authenticated-data bytes with its Lean model. No behaviour added.
+func VerifSerializeAuthenticatedData(
+	buf []byte,
+	s *slayers.SCION,
+	opt slayers.PacketAuthOption,
+	pldType slayers.L4ProtocolType,
+	pld []byte,
+) (int, error) {
+	return serializeAuthenticatedData(buf, s, opt, pldType, pld)
+}
